@@ -1,6 +1,8 @@
 (* C17 round 2 -- executable model of the WindowGenerator OBJECT (shared state `iw`, heap
    of amplitude buffers, several generator views of one object consumed in any
-   interleaving) and of the window count evaluated on the raw constructor arguments.
+   interleaving).  (The window count is Model.nwin for every representation of the constructor
+   arguments: since repo 01d7a00 __init__ computes it from self.ns / self.nswin / self.overlap,
+   the int()-converted values.)
    Definitions only; proofs in ObjectProofs.v, property theorems in Props.v.
    Kept apart from Model.v because other properties import IBL.C17.Model. *)
 From Coq Require Import ZArith List Bool Lia.
@@ -9,23 +11,7 @@ From IBL.C17 Require Import Model.
 Import ListNotations.
 Open Scope Z_scope.
 
-(* ====================================================================== *)
-(* Round 2.                                                                 *)
-(* ---------------------------------------------------------------------- *)
-(* (A) The window count as __init__ computes it: on the RAW constructor
-   arguments (`ns - nswin`, `nswin - overlap`), not on self.ns/self.nswin.
-   For Python ints, signed NumPy integers that hold the three values, and
-   floats the subtraction is exact (ubits = 0).  For an unsigned NumPy integer
-   of `ubits` bits (np.uint16/32: ubits = 16/32; also when only `ns` is
-   unsigned and the others are Python ints: NEP 50 keeps the uint type) the
-   difference wraps modulo 2^ubits.  nswin - overlap is positive on the
-   property's domain and never wraps.  (ubits = 64 is not modelled: the
-   wrapped difference exceeds 2^53 and the float quotient is inexact.) *)
-Definition nwin_raw (ubits ns nswin ov : Z) : Z :=
-  let d := if ubits =? 0 then ns - nswin else (ns - nswin) mod 2 ^ ubits in
-  Z.max (cdiv d (nswin - ov)) 0 + 1.
-
-(* (B) The WindowGenerator OBJECT as a state machine.
+(* The WindowGenerator OBJECT as a state machine.
 
    Python state                          model
    ------------                          -----
